@@ -39,6 +39,15 @@ M = {
   ("scanner-column-counts-bytes", "dbc/scanner.go", "\ts.currCol++\n", "\ts.currCol += utf8.RuneLen(ch)\n"),
   ("scanner-tab-width-4", "dbc/scanner.go", "\t\ts.currCol += 4\n", "\t\ts.currCol += 3\n"),
   ("scanner-unclosed-string-is-eof", "dbc/scanner.go", "\t\t\treturn s.emitErrorToken(`unclosed string, missing closing \"`)", "\t\t\treturn s.emitToken(tokenEOF)"),
+  ("importer-unknown-receiver-skipped", "importer.go",
+   "\t\trecNode, err := i.bus.GetNodeInterfaceByNodeName(recName)\n\t\tif err != nil {\n\t\t\treturn i.errorf(dbcMsg, err)\n\t\t}",
+   "\t\trecNode, err := i.bus.GetNodeInterfaceByNodeName(recName)\n\t\tif err != nil {\n\t\t\tcontinue\n\t\t}"),
+  ("importer-group-range-error-kind", "importer.go",
+   "\t\t\t\t\t\treturn nil, i.errorf(valRange, &GroupIDError{GroupID: int(j), Err: ErrOutOfBounds})",
+   "\t\t\t\t\t\treturn nil, i.errorf(valRange, &GroupIDError{GroupID: int(j), Err: ErrIsNegative})"),
+  ("importer-byte-order-check-dropped", "importer.go",
+   "\t\tif dbcSig.ByteOrder != currByteOrder {\n\t\t\treturn i.errorf(",
+   "\t\tif false && dbcSig.ByteOrder != currByteOrder {\n\t\t\treturn i.errorf("),
   ("parser-valtable-loop-no-progress", "dbc/parser.go", "\tvalID, err := p.parseUint(t.value)\n\tif err != nil {\n\t\treturn nil, p.errorf(\"cannot parse value description id as uint\")\n\t}",
    "\tvalID, err := p.parseUint(t.value)\n\tif err != nil {\n\t\tp.unscan()\n\t\treturn valDesc, nil\n\t}"),
  ],
